@@ -24,7 +24,8 @@ func defCallNextMethod() {
 				},
 			},
 			Return: "object",
-			Text:   `__call-next-method__ continues with the rest of the daemon methods using the arguments provided.`,
+			Text: `__call-next-method__ continues with the rest of the daemon methods using the arguments
+provided. If no arguments are provided the arguments to the current method are used.`,
 			Examples: []string{
 				"(defmethod quux :around ((x fixnum)) (call-next-method))",
 			},
@@ -44,6 +45,11 @@ func (f *CallNextMethod) Call(s *slip.Scope, args slip.List, depth int) slip.Obj
 	}
 	if loc == nil {
 		slip.ErrorPanic(s, depth, "%s called outside an around method qualifier.", f.Name)
+	}
+	if len(args) == 0 {
+		// Called without arguments the next method is called with the
+		// arguments the current method was called with.
+		args = loc.Args
 	}
 	if !loc.HasNext() {
 		nnm := slip.MustFindFunc("no-next-method")
